@@ -1235,37 +1235,22 @@ impl QueryPlan {
             }
             Func2(Like, ref expr, ref pattern) => match pattern {
                 box Const(RawVal::Str(pattern)) => {
-                    let mut pattern = pattern.to_string();
-                    pattern = regex::escape(&pattern);
-                    pattern = Regex::new(r"([^\\])_")
-                        .unwrap()
-                        .replace_all(&pattern, "$1.")
-                        .to_string();
-                    pattern = Regex::new(r"\\_")
-                        .unwrap()
-                        .replace_all(&pattern, "_")
-                        .to_string();
-                    while pattern.contains("%%%%") {
-                        pattern = pattern.replace("%%%%", "%%");
+                    // Translate the LIKE pattern into an anchored regex, one character at a time:
+                    // % matches any sequence, _ any single character, \% and \_ the literal character.
+                    let mut translated = String::new();
+                    let mut chars = pattern.chars().peekable();
+                    while let Some(c) = chars.next() {
+                        match c {
+                            '%' => translated.push_str(".*"),
+                            '_' => translated.push('.'),
+                            '\\' if matches!(chars.peek(), Some('%') | Some('_')) => {
+                                translated.push_str(&regex::escape(&chars.next().unwrap().to_string()))
+                            }
+                            c => translated.push_str(&regex::escape(&c.to_string())),
+                        }
                     }
-                    pattern = pattern.replace("%%%", "(%.*)|(.*%)");
-                    pattern = Regex::new(r"([^%])%([^%])")
-                        .unwrap()
-                        .replace_all(&pattern, "$1.*$2")
-                        .to_string();
-                    pattern = Regex::new(r"^%([^%])")
-                        .unwrap()
-                        .replace_all(&pattern, ".*$1")
-                        .to_string();
-                    pattern = Regex::new(r"([^%])%$")
-                        .unwrap()
-                        .replace_all(&pattern, "$1.*")
-                        .to_string();
-                    pattern = Regex::new(r"%%")
-                        .unwrap()
-                        .replace_all(&pattern, "%")
-                        .to_string();
-                    pattern = format!("^{}$", pattern);
+                    let pattern = translated;
+                    let pattern = format!("(?s)^{}$", pattern);
                     let (mut plan, t) =
                         QueryPlan::compile_expr(expr, filter, columns, column_len, planner)?;
                     if t.decoded != BasicType::String {
